@@ -212,7 +212,7 @@ pub fn gen(rng: &mut Rng, thorough: bool, sink: &mut Sink) {
     vec![|k| k.present = false], vec![|k| k.sd_variant = 1, |k| k.sd_variant = 2, |k| k.sd_variant = 3], vec![|k| k.kb_garbage = true], vec![|k| k.typ = 1, |k| k.typ = 2, |k| k.typ = 3, |k| k.typ = 4, |k| k.typ = 5],
     vec![|k| k.kid = (0, U { d: 0, r: 0, f: -1 }), |k| k.kid = (1, U { d: 0, r: 0, f: -1 }), |k| k.kid.1.f = 5, |k| k.kid.1 = U { d: 2, r: 0, f: 0 }, |k| { k.kid.1.f = 1; k.sigkey = 11; }, |k| k.kid.1.f = 1, |k| k.kid.1.f = 2, |k| { k.kid.1.f = 3; k.sigkey = 13; }],
     vec![|k| k.sigkey = 11, |k| k.sigkey = 20, |k| k.sigkey = 99], vec![|k| k.claims_variant = 1, |k| k.claims_variant = 2, |k| k.claims_variant = 3], vec![|k| k.hash_variant = 1, |k| k.hash_variant = 2, |k| k.hash_variant = 3, |k| k.hash_variant = 4, |k| k.hash_variant = 5, |k| k.hash_variant = 6, |k| k.hash_variant = 7],
-    vec![|k| k.nonce = 2, |k| k.o_nonce = None, |k| { k.o_nonce = None; k.nonce = 2; }], vec![|k| k.aud = 2, |k| k.o_aud = None, |k| { k.o_aud = None; k.aud = 2; }],
+    vec![|k| k.nonce = 2, |k| k.o_nonce = None, |k| { k.o_nonce = None; k.nonce = 2; }, |k| k.nonce = 10, |k| k.nonce = 12], vec![|k| k.aud = 2, |k| k.o_aud = None, |k| { k.o_aud = None; k.aud = 2; }],
     vec![|k| k.iat = 499, |k| k.iat = 500, |k| k.iat = 501, |k| k.iat = 1999, |k| k.iat = 2000, |k| k.iat = 2001, |k| k.iat = crate::c07::TS_MAX + 1, |k| k.iat = crate::c07::TS_MIN - 1, |k| k.iat = 220_000_000_000],
     vec![|k| k.earliest = None, |k| k.latest = None, |k| { k.earliest = None; k.latest = None; }, |k| { k.earliest = Some(1000); k.latest = Some(1000); }, |k| { k.earliest = Some(1001); k.latest = Some(999); }, |k| { k.latest = None; k.iat = 220_000_000_000; }, |k| { k.latest = None; k.earliest = None; k.iat = 220_000_000_000; }, |k| { k.latest = None; k.iat = 1_000_000_000; }, |k| { k.latest = None; k.earliest = Some(0); k.iat = 3_000_000_000; }, |k| { k.earliest = None; k.iat = 220_000_000_000; }],
     vec![|k| k.method_id = Some(U { d: 1, r: 0, f: 0 }), |k| { k.method_id = Some(U { d: 1, r: 0, f: 1 }); k.sigkey = 11; }, |k| k.method_id = Some(U { d: 1, r: 0, f: 1 }), |k| { k.method_id = Some(U { d: 1, r: 0, f: 0 }); k.kid = (0, U { d: 0, r: 0, f: -1 }); }],
